@@ -457,7 +457,11 @@ func (pp *proportionPlugin) allocateHandlerFn(ssn *framework.Session) func(event
 			}
 		}
 
-		leafQueue := pp.queues[job.Queue]
+		leafQueue, found := pp.queues[job.Queue]
+		if !found {
+			// the job's queue does not exist (any more): there is no usage to account
+			return
+		}
 		log.InfraLogger.V(7).Infof("Proportion AllocateFunc: job <%v/%v>, task resources <%s>, "+
 			"queue: <%v>, queue allocated resources: <%v>",
 			job.Namespace, job.Name, taskResources, leafQueue.Name, leafQueue.GetAllocatedShare())
@@ -481,7 +485,11 @@ func (pp *proportionPlugin) deallocateHandlerFn(ssn *framework.Session) func(eve
 			}
 		}
 
-		leafQueue := pp.queues[job.Queue]
+		leafQueue, found := pp.queues[job.Queue]
+		if !found {
+			// the job's queue does not exist (any more): there is no usage to account
+			return
+		}
 		log.InfraLogger.V(7).Infof("Proportion DeallocateFunc: job <%v/%v>, task resources <%s>, "+
 			"queue: <%v>, queue allocated resources: <%v>",
 			job.Namespace, job.Name, taskResources, leafQueue.Name, leafQueue.GetAllocatedShare())
